@@ -96,6 +96,19 @@ class C12(Prop):
                     c2['cfg']['prefix'] = rng.choice([None, ['Pfx'], ['A', 'B'], ['A_B']])
                     c2['cfg']['copyright'] = rng.choice(['c1', 'c2\nline'])
                     variants.append(c2)
+                # every selection spelled out as explicit name sets (the user's own set objects end up inside the
+                # configuration: a build must not write to them)
+                req = [p['name'] for p in base['_info']['ports'] if p['dir'] == 'requires' and not p['injected']]
+                inj = [p['name'] for p in base['_info']['ports'] if p['dir'] == 'requires' and p['injected']]
+                if len(req) >= 2 and not base['cfg'].get('multiclient'):
+                    for _v in range(2):
+                        c3 = json.loads(json.dumps(strip(base)))
+                        k = rng.randint(1, len(req) - 1)
+                        a = rng.sample(req, k)
+                        b = [x for x in req if x not in a] + (inj[:1] if rng.random() < 0.5 else [])
+                        c3['cfg']['ports']['rsts'], c3['cfg']['ports']['rmts'] = {'names': a}, {'names': b}
+                        variants.append(c3)
+                        variants.append(c3)       # twice: the second build sees what the first one left behind
                 models.append((base, variants))
             steps = []
             # a sibling model is built right after the model it was derived from, under the same (valid) configuration
